@@ -1572,6 +1572,11 @@ impl<'t, 'c> Gen<'t, 'c> {
                     body.push(Stmt::Gosub(l.clone()));
                     body.push(self.tok("j"));
                 }
+                // now and then a RETURN although the subprogram has no GOSUB pending (whatever its callers have pending is theirs)
+                if own_routine.is_none() && self.t.chance(1, 5) {
+                    body.push(Stmt::Return);
+                    body.push(self.tok("y"));
+                }
                 let kind = *self.t.pick(&[0usize, 1, 3, 5, 6, 5, 6]);
                 let f = self.failing(&pcv, kind);
                 let e = self.enclose(f);
@@ -1584,6 +1589,11 @@ impl<'t, 'c> Gen<'t, 'c> {
                     body.push(Stmt::ExitProc);
                     body.push(Stmt::Label(l));
                     body.push(self.tok("p"));
+                    if k > 0 && self.t.chance(1, 2) {
+                        // another subprogram is called while this one's GOSUB is pending (two calls deep)
+                        body.push(Stmt::CallSub(sub_ids[0], vec![]));
+                        body.push(self.tok("v"));
+                    }
                     body.push(if self.t.chance(1, 2) { Stmt::Return } else { Stmt::ExitProc });
                 }
                 self.prog.procs[p].body = body;
@@ -1771,6 +1781,12 @@ impl<'t, 'c> Gen<'t, 'c> {
                 let f = self.failing(&cv, kk);
                 main.extend(f);
                 main.push(self.tok("w"));
+            }
+            // a subprogram called while this routine's GOSUB is pending
+            if !sub_ids.is_empty() && self.t.chance(1, 3) {
+                let p = sub_ids[self.t.choose(sub_ids.len())];
+                main.push(Stmt::CallSub(p, vec![]));
+                main.push(self.tok("z"));
             }
             // a landing label for RESUME <label> inside the routine: the RETURN that follows needs the GOSUB that was
             // pending when the error happened
